@@ -75,11 +75,13 @@ P = {
              tech="Lean 4 proof (reader agreement on every stated molecule) + correspondence + paired V2000/V3000 probe"),
  "C09": dict(text="Proved about writer and reader models, for every line length and any atom count: the written file has no line over 79 characters, "
              "and reading it back returns the same atoms in order with the same element, charge, radical, mass, coordinate tokens and the "
-             "same bonds and bond types (C09_write_read); plus the line-level lemmas. Probe: real write→read with length-targeted lines.",
-             note="float formatting is opaque (coordinates are pre-formatted tokens); labels consecutive (as readers and parser produce).",
+             "same bonds and bond types (C09_write_read; C09_write_read_any_listing for graphs whose nodes are listed in any order, e.g. "
+             "canonical graphs); plus the line-level lemmas. Probe: real write→read with length-targeted lines.",
+             note="float formatting is opaque (coordinates are pre-formatted tokens); labels are 0..n-1, listed in any order.",
              tech="Lean 4 proof (file-level write/read for all lengths) + correspondence + length-targeted round-trip probe"),
  "C10": dict(text="The Lean reference reader (lexer + recogniser from the grammar, tables regenerated from the ATN) is compared with the real parser "
              "on sentences, single-token edits, every element and table-neighbour pair: accept/reject, exception type, graph. Proved: "
+             "acceptance exactly (C10_accepts_iff: accepted iff a sentence whose indices exist, without self-bond, duplicate attribute or over-long literal); "
              "every rejection is TucanParserException; the recogniser accepts exactly the declarative grammar; the returned graph is the "
              "denoted graph (atoms by increasing Z, bonds as a set, attributes on indexed atoms); the element table is the periodic table.",
              note="the ANTLR runtime is compared behaviourally, not verified.",
